@@ -295,14 +295,27 @@ def run(cx):
         # end built from match.end()+1 of this line; start from col+1
         if isinstance(c.args[3], ast.Name):
             ds = [v for s0, v in assignments(tok, c.args[3].id) if v is not None and s0 in _block_stmts(c)]
-            ok = len(ds) == 1 and isinstance(ds[0], ast.Call) and call_name(ds[0]) == "SrcPos" and len(ds[0].args) == 3 and norm(ds[0].args[1]) == line_var and norm(ds[0].args[2]).replace(" ", "") == "match.end()+1"
+            from sa.guards import alias_env, expand
+            col_arg = ds[0].args[2] if len(ds) == 1 and isinstance(ds[0], ast.Call) and len(ds[0].args) == 3 else None
+            if isinstance(col_arg, ast.BinOp):
+                # see through a local such as `end_col = match.end()` bound in the same block
+                env_ = {k: v for k, v in ((st_.targets[0].id, st_.value) for st_ in _block_stmts(c) if isinstance(st_, ast.Assign) and len(st_.targets) == 1 and isinstance(st_.targets[0], ast.Name)
+                                           and isinstance(st_.value, ast.Call) and norm(st_.value) == "match.end()")}
+                col_arg = expand(col_arg, env_)
+            ok = len(ds) == 1 and isinstance(ds[0], ast.Call) and call_name(ds[0]) == "SrcPos" and len(ds[0].args) == 3 and norm(ds[0].args[1]) == line_var and col_arg is not None and norm(col_arg).replace(" ", "") == "match.end()+1"
             cx.ob("R04a", c, ok, "end = (current line, match.end() + 1)" if ok else "end position is not SrcPos(src, line, match.end() + 1) computed for this token", stmt=norm(c)[:60] + " [end expr]")
         cx.ob("R04a", c, norm(c.args[2]) != norm(c.args[3]), "start and end are different values" if norm(c.args[2]) != norm(c.args[3]) else "start and end are the same expression", stmt=norm(c)[:60] + " [distinct]")
     cx.at_least("R04a", "token construction sites", n_sites, 3)
     # every SrcPos built in the loop for a *start* uses col + 1
     n_sp = 0
+    from sa.guards import expand as _expand
+    m_env = {}
+    for st_ in walk_local(tok):
+        if isinstance(st_, ast.Assign) and len(st_.targets) == 1 and isinstance(st_.targets[0], ast.Name) and norm(st_.value) in ("match.end()", "match.start()"):
+            m_env.setdefault(st_.targets[0].id, []).append(st_.value)
+    m_env = {k: v[0] for k, v in m_env.items() if len({norm(x) for x in v}) == 1}
     for c in walk_local(line_loop):
-        if isinstance(c, ast.Call) and call_name(c) == "SrcPos" and len(c.args) == 3 and "end()" not in norm(c.args[2]):
+        if isinstance(c, ast.Call) and call_name(c) == "SrcPos" and len(c.args) == 3 and "end()" not in norm(_expand(c.args[2], m_env)):
             st = enclosing_stmt(c)
             if isinstance(st, ast.Raise) or any(isinstance(a, ast.Raise) for a in ancestors(c)):
                 continue
@@ -313,7 +326,7 @@ def run(cx):
     # the scan column advances to match.end() and restarts at 0 per line
     cols = [s for s in walk_local(line_loop) if isinstance(s, ast.Assign) and is_name(s.targets[0], "col")]
     ok = any(const(s.value, int) and s.value.value == 0 and parent(s) is line_loop for s in cols) and \
-        all(norm(s.value) in ("0", "match.end()", f"len({text_var})") for s in cols)
+        all(norm(_expand(s.value, m_env)) in ("0", "match.end()", f"len({text_var})") for s in cols)
     cx.ob("R04a", line_loop, ok, "the scan column restarts at 0 on each line and advances to match.end()" if ok else "scan column bookkeeping altered", stmt="scan column")
     # prev end is updated after each emitted token
     for c in [x for x in seen.values() if x[4]]:
@@ -380,21 +393,45 @@ def run(cx):
     ok = same and len(d) == 1 and norm(d[0]) == "tokens[top.cur_token_pos].start_pos"
     cx.ob("R04c", c, ok, "empty node: start = end = start of the token under the cursor" if ok else "empty node span is not (start of the following token) x 2")
     # ---------------- R04d
-    st_s = [s for s in walk_local(te_init) if isinstance(s, ast.Assign) and any(is_self_attr(t, "start_pos") for t in s.targets)]
-    st_e = [s for s in walk_local(te_init) if isinstance(s, ast.Assign) and any(is_self_attr(t, "end_pos") for t in s.targets)]
-    inf_s = [s for s in st_s if "value" in norm(s.value)]
-    inf_e = [s for s in st_e if "value" in norm(s.value)]
-    ok = len(inf_s) == 1 and len(inf_e) == 1 and norm(inf_s[0].value) == "self.value[0].start_pos" and norm(inf_e[0].value) == "self.value[-1].end_pos"
-    cx.ob("R04d", inf_s[0] if inf_s else te_init, ok, "inner node span = first child's start .. last child's end" if ok else "inferred span of an inner node altered")
-    if inf_s:
-        g = {(norm(e), pol) for e, pol in facts(inf_s[0])}
-        ok = ("start_pos is None", True) in g and ("self._is_leaf", False) in g
-        cx.ob("R04d", inf_s[0], ok, "inferred only for non-leaf nodes without explicit span" if ok else "span inference guard altered", stmt=norm(inf_s[0]) + " [guard]")
-    expl = [s for s in st_s if is_name(s.value, "start_pos")]
-    ok = len(expl) == 2 and all(any(is_name(e.value, "end_pos") and parent(e) is parent(s) for e in st_e) for s in expl)
-    cx.ob("R04d", te_init, ok, "an explicit span is stored as given (start with start, end with end)" if ok else "explicit span storage altered", stmt="explicit span")
-    asr = [a for a in walk_local(te_init) if isinstance(a, ast.Assert) and norm(a.test) == "start_pos is not None" and any(norm(e) == "self._is_leaf" and pol for e, pol in facts(a))]
-    cx.ob("R04d", asr[0] if asr else te_init, bool(asr), "leaves require an explicit span" if asr else "a leaf may be created without span")
+    # decided by interpreting the constructor over its finite cases: is_leaf given True / False, span given / absent
+    from sa.finite import Interp, C, K, S, TOP
+    n_cases = 0
+    for leaf in (True, False):
+        for given in (True, False):
+            n_cases += 1
+            it_ = Interp()
+            env = {"name": K("str", False, "name"), "value": K("list", None, "val"), "is_leaf": C(leaf), "is_valid_inner_node": C(not leaf),
+                   "start_pos": K("other", False, "SP") if given else C(None), "end_pos": K("other", False, "EP") if given else C(None)}
+            body = [st for st in te_init.body if not (isinstance(st, ast.Assign) and is_name(st.targets[0], "is_valid_inner_node"))]
+            outs = it_.run(body, env)
+            got = set()
+            for o in outs:
+                if o.how == "raise":
+                    got.add(("raise", str(o.value)))
+                elif o.how in ("fall", "return"):
+                    sp, ep = o.env.get("self.start_pos"), o.env.get("self.end_pos")
+
+                    def tag(v):
+                        if isinstance(v, K):
+                            return v.tag
+                        if isinstance(v, S):
+                            return "".join(p_[1] if isinstance(p_, tuple) and p_[0] == "ref" else str(p_) for p_ in v.parts)
+                        return repr(v)
+                    got.add((tag(sp), tag(ep)))
+                else:
+                    got.add((o.how, ""))
+            label = f"{'leaf' if leaf else 'inner node'}, span {'given' if given else 'absent'}"
+            if given:
+                want = {("SP", "EP")}
+                ok = got == want
+                cx.ob("R04d", te_init, ok, f"{label}: the explicit span is stored as given" if ok else f"{label}: span becomes {sorted(got)}", stmt=f"span [{label}]")
+            elif leaf:
+                ok = got == {("raise", "AssertionError")}
+                cx.ob("R04d", te_init, ok, f"{label}: rejected (leaves require an explicit span)" if ok else f"{label}: {sorted(got)} - a leaf may be created without span", stmt=f"span [{label}]")
+            else:
+                ok = got == {("self.value[0].start_pos", "self.value[-1].end_pos")}
+                cx.ob("R04d", te_init, ok, f"{label}: first child's start .. last child's end" if ok else f"{label}: span becomes {sorted(got)}", stmt=f"span [{label}]")
+    cx.at_least("R04d", "constructor cases", n_cases, 4)
     leafs = [c for c in walk_local(parse) if isinstance(c, ast.Call) and call_name(c) == "TElement" and len(c.args) == 2 and norm(c.args[1]) == "next_token.value"]
     ok = len(leafs) == 1 and {k.arg: norm(k.value) for k in leafs[0].keywords} == {"start_pos": "next_token.start_pos", "end_pos": "next_token.end_pos"}
     cx.ob("R04d", leafs[0] if leafs else parse, ok, "a leaf copies the token's own start and end" if ok else "leaf span is not the token's (start_pos, end_pos)")
